@@ -1,4 +1,6 @@
-// C15, AVC half: shared pieces (known-defect switches, boundary-heavy draws, field-by-field diff).
+// C15, AVC half: shared pieces (environment override of the known-defect switches, field-by-field diff).
+// The switches (esgen.AVCAvoidKnown), the boundary-heavy draws and the value-tree generators live in
+// verif/internal/esgen (shared with C16).
 package c15
 
 import (
@@ -8,8 +10,7 @@ import (
 	"reflect"
 	"strings"
 
-	"pgregory.net/rapid"
-
+	"verif/internal/esgen"
 	"verif/internal/harness"
 )
 
@@ -23,135 +24,17 @@ func init() {
 	if v := os.Getenv("VERIF_C15_AVC_UNAVOID"); v != "" {
 		for _, n := range strings.Split(v, ",") {
 			if n == "all" {
-				for k := range avcAvoidKnown {
-					avcAvoidKnown[k] = false
+				for k := range esgen.AVCAvoidKnown {
+					esgen.AVCAvoidKnown[k] = false
 				}
-			} else if _, ok := avcAvoidKnown[n]; ok {
-				avcAvoidKnown[n] = false
+			} else if _, ok := esgen.AVCAvoidKnown[n]; ok {
+				esgen.AVCAvoidKnown[n] = false
 			} else {
 				fmt.Fprintf(os.Stderr, "VERIF_C15_AVC_UNAVOID: unknown switch %q\n", n)
 				os.Exit(2)
 			}
 		}
 	}
-}
-
-// avcAvoidKnown: each entry names a defect of the unchanged library that was confirmed by decoding the
-// bits by hand (see the reproducer under /verif/replay/C15/kf-<name>.json). While a switch is true the
-// generators do not produce the feature that triggers the defect (every avoided draw is counted with
-// harness.Rec.Exclude(name)); the oracles are never weakened. Set a switch to false (after the library
-// has been repaired) and the corresponding check finds the defect within a few hundred cases.
-var avcAvoidKnown = map[string]bool{
-	// avc/sps.go reads offset_for_non_ref_pic, offset_for_top_to_bottom_field and offset_for_ref_frame[i]
-	// (all se(v), 7.3.2.1.1) with ReadExpGolomb into uint fields: the caller gets the ue code number
-	// (value k>0 -> 2k-1, k<=0 -> -2k). Only the values 0 and 1 survive. Avoidance: offsets in {0,1}.
-	"avc-sps-poc1-offsets-unsigned": true,
-	// avc/sps.go parseVUI: aspect_ratio_idc 0 ("Unspecified", a legal value of Table E-1) makes
-	// GetSARfromIDC fail and ParseSPSNALUnit return an error for a valid SPS. Avoidance: idc in 1..16, 255.
-	"avc-sps-aspect-ratio-idc0": false, // repaired in /repo (fix: commit), see known_findings.json
-	// avc/pps.go slice_group_map_type 2: the loop over top_left/bottom_right runs iGroup <= num_slice_groups_minus1,
-	// the standard (7.3.2.2) codes iGroup < num_slice_groups_minus1 pairs: one pair too many is read and
-	// everything after it is shifted. Avoidance: map type 2 not generated.
-	"avc-pps-slicegroup-type2-extra-pair": false, // repaired in /repo (fix: commit), see known_findings.json
-	// avc/pps.go slice_group_map_type 6: pic_size_in_map_units_minus1 ue(v) is not read at all and
-	// num_slice_groups_minus1+1 slice_group_id values are read instead of pic_size_in_map_units_minus1+1.
-	// Avoidance: map type 6 not generated.
-	"avc-pps-slicegroup-type6": false, // repaired in /repo (fix: commit), see known_findings.json
-	// avc/pps.go: with pic_scaling_matrix_present_flag=1 and transform_8x8_mode_flag=0 the six 4x4 lists
-	// (6 + ((chroma_format_idc != 3) ? 2 : 6) * transform_8x8_mode_flag) are not read.
-	// Avoidance: the scaling matrix is only generated together with transform_8x8_mode_flag=1.
-	"avc-pps-scalinglists-without-8x8": false, // repaired in /repo (fix: commit), see known_findings.json
-	// avc/slice.go: `spsID := pps.PicParameterSetID` - the SPS is looked up with the PPS's own id instead of
-	// its seq_parameter_set_id. Avoidance: the PPS used by the slice gets pic_parameter_set_id == seq_parameter_set_id.
-	"avc-slice-spsid-via-ppsid": false, // repaired in /repo (fix: commit), see known_findings.json
-	// avc/slice.go never sets SliceHeader.SeqParamID (always 0). Avoidance: the SPS used by the slice gets id 0.
-	"avc-slice-seqparamid-unset": false, // repaired in /repo (fix: commit), see known_findings.json
-	// avc/slice.go: the width of slice_group_change_cycle is computed from pps.PicSizeInMapUnitsMinus1 (never
-	// parsed for map types 3..5, so 0) with integer division: 1 bit if SliceGroupChangeRate==1, else 0 bits;
-	// the standard (7-35) says Ceil(Log2(PicSizeInMapUnits / SliceGroupChangeRate + 1)) with PicSizeInMapUnits of the SPS.
-	// Avoidance: slices do not refer to a PPS with map type 3..5 (unless both widths coincide).
-	"avc-slice-group-change-cycle-bits": true,
-	// avc.CreateAVCDecConfRec hard-codes ChromaFormat=1, BitDepthLumaMinus1(=minus8)=0, BitDepthChromaMinus1=0.
-	// Avoidance: the first SPS of a configuration record is 4:2:0 8 bit.
-	"avc-conf-chroma-bitdepth-hardcoded": false, // repaired in /repo (fix: commit), see known_findings.json
-	// (a finding of C01/C02, seen here through C15's init-segment round trip) avc.DecConfRec.Size counts the four
-	// trailing bytes chroma_format.. for every profile except 66/77/88, EncodeSW writes them only for 100/110/122/144:
-	// for the other profiles (244, 44, 83, 86, 118, 128, 134, 135, 138, 139) the avcC box says size+4 but is 4 bytes
-	// short, and the enclosing init segment cannot be decoded ("moov: expected N bytes, got N-4").
-	// Avoidance: for those profiles the box/init-segment encode+decode step of the conf check is not requested.
-	"avc-conf-avcc-size-encode-mismatch": false, // repaired in /repo (fix: commit), see known_findings.json
-}
-
-// avcAvoid reports whether the switch is on; when the drawn feature `hit` would trigger the defect
-// and the switch is on, the avoidance is counted.
-func avcAvoid(name string, hit bool) bool {
-	if !hit {
-		return false
-	}
-	if avcAvoidKnown[name] {
-		harness.Rec.Exclude(name)
-		return true
-	}
-	return false
-}
-
-// avcDrawInt draws a boundary-heavy integer in [lo, hi].
-func avcDrawInt(t *rapid.T, lo, hi int64, label string) int64 {
-	if lo >= hi {
-		return lo
-	}
-	switch rapid.IntRange(0, 9).Draw(t, label+"?") {
-	case 0:
-		return lo
-	case 1:
-		return hi
-	case 2:
-		return lo + 1
-	case 3:
-		return hi - 1
-	case 4, 5:
-		// around a power of two (of the magnitude), both signs
-		k := rapid.IntRange(0, 32).Draw(t, label+"^")
-		v := int64(1)<<uint(k) + int64(rapid.IntRange(-1, 1).Draw(t, label+"±"))
-		if lo < 0 && rapid.Bool().Draw(t, label+"-") {
-			v = -v
-		}
-		if v < lo || v > hi {
-			return rapid.Int64Range(lo, hi).Draw(t, label)
-		}
-		return v
-	case 6, 7:
-		// small
-		h := lo + 8
-		if h > hi {
-			h = hi
-		}
-		if lo < 0 && hi > 0 {
-			l := int64(-4)
-			if l < lo {
-				l = lo
-			}
-			h = 4
-			if h > hi {
-				h = hi
-			}
-			return rapid.Int64Range(l, h).Draw(t, label)
-		}
-		return rapid.Int64Range(lo, h).Draw(t, label)
-	}
-	return rapid.Int64Range(lo, hi).Draw(t, label)
-}
-
-func avcDrawUint(t *rapid.T, lo, hi uint64, label string) uint {
-	return uint(avcDrawInt(t, int64(lo), int64(hi), label))
-}
-
-// avcChance is true with a probability of roughly num/den. rapid's integer generators favour small values, so
-// the real frequency is somewhat above num/den (measured over 30k cases: nominal 1/4 -> 28 %, 1/2 -> 49 %,
-// 2/3 -> 69 %); the optional branches guarded by it are therefore reached a little more often than nominal,
-// never less. The frequencies that matter are the class counters in the evidence, not these nominal values.
-func avcChance(t *rapid.T, num, den int, label string) bool {
-	return rapid.IntRange(1, den).Draw(t, label) <= num
 }
 
 // avcDiff compares want and got field by field. It returns the path of the first differing field
@@ -211,21 +94,6 @@ func avcFieldFail(typ string, want, got interface{}, ctx string) *harness.Fail {
 		return nil
 	}
 	return harness.Failf("C15|"+typ+kp+"|value differs", "%s%s: parser returned %s, coded value %s (%s)", typ, p, g, w, ctx)
-}
-
-func avcNontrivial(classes []string, baseline ...string) bool {
-	for _, c := range classes {
-		base := false
-		for _, b := range baseline {
-			if c == b || strings.HasPrefix(c, b) {
-				base = true
-			}
-		}
-		if !base {
-			return true
-		}
-	}
-	return false
 }
 
 // avcReplayConsistent re-runs the oracle on the JSON form of one case in 16 and requires the same verdict
